@@ -651,12 +651,12 @@ let warc_trailer_len =
 (** val warc_reject_negative : bool **)
 
 let warc_reject_negative =
-  false
+  true
 
 (** val warc_reject_nodigit : bool **)
 
 let warc_reject_nodigit =
-  false
+  true
 
 (** val kMagicSize : n **)
 
